@@ -65,7 +65,8 @@ def run_scenario(case):
     lib = c02._lib(case["n"])
     events = []
     hashes = {}
-    for run in ("A", "B", "G"):
+    lins = {}
+    for run in ("A", "B", "G", "D"):
         gs = 424242 if run != "G" else 99 + case["seed"]
         np.random.seed(gs % (2**31))
         pyr.seed(gs)
@@ -76,7 +77,7 @@ def run_scenario(case):
             import schwimmbad
             real_pool = schwimmbad.MultiPool(processes=case["multipool"])
         try:
-            s = sd.Session(lib, g["data"], g["prior"], seed=case["seed"], pool=case.get("pool", "rec"), pool_size=case.get("pool_size", 2),
+            s = sd.Session(lib, g["data"], g["prior"], seed=case["seed"] + (1 if run == "D" else 0), pool=case.get("pool", "rec"), pool_size=case.get("pool_size", 2),
                            order_seed=case["seed"], workdir=wd, real_pool=real_pool)
             events.append({"ev": "Run", "run": run})
             parent_sid = collab.stream_id(s.gen)
@@ -112,7 +113,8 @@ def run_scenario(case):
                 key = ci
                 if run == "A":
                     hashes[key] = hh
-                events.append({"ev": "Output", "hash": hh, "hashA": hashes[key], "lin": lin, "call": ci,
+                    lins[key] = lin
+                events.append({"ev": "Output", "hash": hh, "hashA": hashes[key], "lin": lin, "linA": lins[key], "call": ci,
                                "what": "%s/%s" % (c.get("api", kind), c.get("path", "")),
                                "raised": bool(s.events and s.events[-1].get("raised", False)) if kind != "prior_sample" else res is None})
         finally:
@@ -154,7 +156,7 @@ def run(ctx, selftest=False):
     c02._setup()
     quick = ctx.tier == "quick"
     ctx.rule = ("cases = seeded random scenarios (1-4 calls: rejection / iterative / marginal on the three paths, prior samples by count, "
-                "prior.sample), each executed 3 times (seed s, seed s, seed s with different global generator seeds); thorough adds "
+                "prior.sample), each executed 4 times (seed s, seed s, seed s with different global generator seeds, seed s+1); thorough adds "
                 "schwimmbad.MultiPool; distinct = distinct call sequences; trivial = scenario without any random draw")
     ctx.assumptions = ["TLC/SANY", "numpy bit-generator state repr identifies the stream position", "SHA-256 of returned arrays"]
     ctx.model_check("Streams", "MC_Streams.cfg", coverage=True)
@@ -193,13 +195,23 @@ def _selftest(ctx, traces):
             a = copy.deepcopy(t); a["id"] = "st-kid-%d" % len(muts)
             a["events"][pair[1]]["sids"][0] = a["events"][pair[0]]["sids"][0]
             muts.append((a, "C10.NoStreamReuseAcrossTasksAndCalls"))
-        outs = [e for e in t["events"] if e["ev"] == "Output"]
-        if outs:
+        run, gout, dout = None, None, None
+        for k, e in enumerate(t["events"]):
+            if e["ev"] == "Run":
+                run = e["run"]
+            elif e["ev"] == "Output" and run == "G":
+                gout = k
+            elif e["ev"] == "Output" and run == "D" and e["linA"]:
+                dout = k
+        if gout is not None:
             b = copy.deepcopy(t); b["id"] = "st-out-%d" % len(muts)
-            ob = [e for e in b["events"] if e["ev"] == "Output"]
-            ob[-1]["hash"] = "0" * 20
+            b["events"][gout]["hash"] = "0" * 20
             muts.append((b, "C10.OutputIndependentOfGlobalState"))
-        if len(muts) >= 6:
+        if dout is not None:
+            d = copy.deepcopy(t); d["id"] = "st-seed-%d" % len(muts)
+            d["events"][dout]["lin"] = list(d["events"][dout]["linA"])       # the other seed reproduced run A's draws
+            muts.append((d, "C10.DrawsComeFromTheGivenGenerator"))
+        if len(muts) >= 9:
             break
     v = ctx.validate("StreamsTrace", [m for m, _ in muts])
     ctx.traces_validated -= len(muts)
